@@ -95,10 +95,18 @@ func (s *Solver) Check(tb *TB, conds []*Term, wantModel bool) CheckResult {
 	return s.CheckText(tb, p, wantModel)
 }
 
+func (s *Solver) checkReset(tb *TB, base, p *Printer, wantModel bool) CheckResult {
+	return s.checkText(tb, p, wantModel, "(reset)\n(set-option :produce-models true)\n"+base.String(), "")
+}
+
 func (s *Solver) CheckText(tb *TB, p *Printer, wantModel bool) CheckResult {
+	return s.checkText(tb, p, wantModel, "(push 1)\n", "(pop 1)\n")
+}
+
+func (s *Solver) checkText(tb *TB, p *Printer, wantModel bool, pre, post string) CheckResult {
 	t0 := time.Now()
 	var q strings.Builder
-	q.WriteString("(push 1)\n")
+	q.WriteString(pre)
 	q.WriteString(p.String())
 	q.WriteString("(check-sat)\n(echo \"CHK\")\n")
 	if _, err := io.WriteString(s.stdin, q.String()); err != nil {
@@ -123,7 +131,7 @@ func (s *Solver) CheckText(tb *TB, p *Printer, wantModel bool) CheckResult {
 	if res == "sat" && wantModel {
 		cr.Model = map[string]uint64{}
 		var names []string
-		for _, v := range p.Vars {
+		for _, v := range p.AllVars() {
 			names = append(names, smtName(v.Name))
 		}
 		// chunk get-value requests
@@ -150,7 +158,8 @@ func (s *Solver) CheckText(tb *TB, p *Printer, wantModel bool) CheckResult {
 		}
 		memo := map[int]uint64{}
 		for _, t := range apps {
-			io.WriteString(s.stdin, "(get-value ("+p.defined[t.ID]+"))\n(echo \"GV\")\n")
+			nm, _ := p.lookup(t.ID)
+			io.WriteString(s.stdin, "(get-value ("+nm+"))\n(echo \"GV\")\n")
 			ls, err := s.readUntil("GV")
 			if err != nil {
 				break
@@ -167,8 +176,11 @@ func (s *Solver) CheckText(tb *TB, p *Printer, wantModel bool) CheckResult {
 			}
 		}
 	}
-	io.WriteString(s.stdin, "(pop 1)\n")
+	io.WriteString(s.stdin, post)
 	cr.Dur = time.Since(t0)
+	if cr.Dur > 300*time.Millisecond && os.Getenv("SYMGO_DEBUG") != "" {
+		fmt.Fprintf(os.Stderr, "  slow query %v res=%s bytes=%d\n", cr.Dur, res, len(p.String()))
+	}
 	s.NQ++
 	s.Time += cr.Dur
 	switch res {
@@ -180,6 +192,46 @@ func (s *Solver) CheckText(tb *TB, p *Printer, wantModel bool) CheckResult {
 		s.NUnk++
 	}
 	return cr
+}
+
+// Session keeps the solver in step with one execution path: path-condition conjuncts are
+// asserted once (incrementally); each query pushes only its extra terms.
+type Session struct {
+	s    *Solver
+	tb   *TB
+	p    *Printer
+	open bool
+}
+
+func (s *Solver) NewSession(tb *TB) *Session { return &Session{s: s, tb: tb} }
+
+// The solver is used non-incrementally: every query is sent after a (reset), so that z3 applies
+// its tactic-based bit-vector pipeline (measured 3-10x faster than push/pop mode on these queries);
+// the process stays alive, which avoids the start-up cost.
+func (ss *Session) Begin() {
+	ss.p = NewPrinter(ss.tb)
+	ss.open = true
+}
+
+func (ss *Session) End() { ss.open = false }
+
+func (ss *Session) Assert(t *Term) {
+	ss.p.Assert(t)
+}
+
+var dumpN int
+
+func (ss *Session) Check(extra []*Term, wantModel bool) CheckResult {
+	c := ss.p.Child()
+	for _, e := range extra {
+		c.Assert(e)
+	}
+	r := ss.s.checkReset(ss.tb, ss.p, c, wantModel)
+	if d := os.Getenv("SYMGO_DUMP"); d != "" && r.Dur > 200*time.Millisecond {
+		dumpN++
+		os.WriteFile(fmt.Sprintf("%s/q%d_%d_%s.smt2", d, os.Getpid(), dumpN, r.Res), []byte(ss.p.String()+c.String()+"(check-sat)\n"), 0o644)
+	}
+	return r
 }
 
 func collectApps(p *Printer) []*Term {
@@ -198,8 +250,10 @@ func collectApps(p *Printer) []*Term {
 			out = append(out, t)
 		}
 	}
-	for _, r := range p.roots {
-		walk(r)
+	for q := p; q != nil; q = q.parent {
+		for _, r := range q.roots {
+			walk(r)
+		}
 	}
 	return out
 }
